@@ -147,8 +147,9 @@ _run0 = run
 
 
 def run(cx):
-    from .C03 import check_za
+    from .C03 import check_za, check_za_id
     from .. import rules_s as S
     _run0(cx)
+    check_za_id(cx, '<impl key::Sm2PublicKey>::verify', 'verify')
     check_za(cx)            # the verifier binds ID and key through the same ZA as the signer
     S.s_siblings(cx, 'S-SIBLING', only=('mod-add', 'modn-sub', 'limb-add', 'limb-sub', 'limb-cmp'))
